@@ -588,3 +588,12 @@ func divTerm(op, a, b string) string {
 	}
 	return fmt.Sprintf("(nl_%s %s %s)", op, a, b)
 }
+
+// litOf: the Go string literal a term denotes, if it is a literal constant.
+func (g *Gen) litOf(term string) (string, bool) {
+	var n int
+	if _, err := fmt.Sscanf(term, "str!%d", &n); err == nil && n >= 0 && n < len(g.strOrder) && fmt.Sprintf("str!%d", n) == term {
+		return g.strOrder[n], true
+	}
+	return "", false
+}
